@@ -7,7 +7,7 @@ import json, os, subprocess, sys, shutil, re, concurrent.futures as cf
 
 V = '/verif'; S = os.path.join(V, 'seeded'); TMP = '/tmp/sm'
 # peers: other properties whose check is expected to notice the change as well (run in addition to the seed's own property)
-PEERS = {'C01b': ['C06'], 'C06a': ['C01'], 'C11b': ['C06'], 'C04a': ['C12'], 'C04b': ['C12'], 'C07b': ['C04'], 'C12a': ['C04'], 'C12b': ['C04'], 'C10c': ['C11'], 'C12c': ['C04']}
+PEERS = {'C01b': ['C06'], 'C06a': ['C01'], 'C11b': ['C06'], 'C04a': ['C12'], 'C04b': ['C12'], 'C07b': ['C04'], 'C12a': ['C04'], 'C12b': ['C04'], 'C10c': ['C11'], 'C12c': ['C04'], 'C16e': ['C14']}
 
 
 def run(sid):
